@@ -47,6 +47,17 @@ def topo_loop(fi):
         if not isinstance(n, ast.For):
             continue
         it = n.iter
+        # for key in topology: path = topology[key]
+        if isinstance(it, ast.Name) and it.id in ('schema', 'topology') \
+                and isinstance(n.target, ast.Name):
+            key = n.target.id
+            for dn, dl in local_defs(fi.node).items():
+                for d in dl:
+                    if d.kind == 'assign' and within(d.stmt, n) and \
+                            isinstance(d.value, ast.Subscript) and A.is_name(
+                                d.value.value, it.id) and A.is_name(
+                                d.value.slice, key) and it.id == 'topology':
+                        return n, key, dn, it.id, None
         if isinstance(it, ast.Call) and A.call_name(it) == 'items' and \
                 isinstance(it.func.value, ast.Name) and \
                 it.func.value.id in ('schema', 'topology') and isinstance(
@@ -453,14 +464,17 @@ def r06_4(ck):
     defers = list(A.calls_in(pu.node, 'Defer'))
     for d in defers:
         fn = A.arg_of(d, 1, 'f')
+        fn = resolve_local(pu.node, fn, d) if fn is not None else fn
         ck.require(A.is_name(fn, 'invert_topology'), 'R06.4', pu, d,
                    'the deferred transformation is invert_topology',
                    'the Defer does not use invert_topology', d)
         args = simplify(A.arg_of(d, 2, 'args'))
+        if isinstance(args, ast.Name):
+            args = simplify(resolve_local(pu.node, args, d))
         ok = isinstance(args, ast.Tuple) and len(args.elts) == 2
         if ok:
-            p = simplify(args.elts[0])
-            t = simplify(args.elts[1])
+            p = simplify(resolve_local(pu.node, simplify(args.elts[0]), d))
+            t = simplify(resolve_local(pu.node, simplify(args.elts[1]), d))
             ok = A.is_name(p, params[0]) and isinstance(t, ast.Attribute) \
                 and t.attr == 'topology' and A.is_name(t.value, params[2])
         ck.require(ok, 'R06.4', pu, d,
